@@ -83,10 +83,11 @@ Proof. vm_compute. reflexivity. Qed.
 Theorem C06_source_block_arithmetic_is_the_model off n bs ov u :
   Blocks.translation_failed = false /\
   uls off n bs ov = pyrange (Z.to_nat n + 1) (gen_range_start off n bs ov) (gen_range_stop off n bs ov) (gen_range_step off n bs ov) /\
-  (let br := gen_br u bs ov off (off + n) in
-   mk_ablk off n bs ov u = {| in_lo := gen_in_lo u bs ov off (off + n) br; in_hi := gen_in_hi u bs ov off (off + n) br;
-                              out_lo := gen_out_lo u bs ov off (off + n) br; out_hi := gen_out_hi u bs ov off (off + n) br |}) /\
-  (gen_rows_outer_bands_outermost = true /\ gen_window_corners_ok = true /\ gen_windows_from_corners_ok = true /\ gen_outer_ok = true /\
-   gen_fuse_passes_overlap = true /\ gen_compare_no_overlap = true).
+  (let b := mk_ablk off n bs ov u in
+   gen_in_lo u bs ov off (off + n) = in_lo b /\ gen_in_lo u bs ov off (off + n) + gen_in_len u bs ov off (off + n) = in_hi b /\
+   gen_out_lo u bs ov off (off + n) = out_lo b /\ gen_out_lo u bs ov off (off + n) + gen_out_len u bs ov off (off + n) = out_hi b /\
+   gen_outer_hi_term u bs ov off (off + n) = in_hi b) /\
+  (gen_rows_outer_bands_outermost = true /\ gen_block_pair_fields_ok = true /\ gen_outer_ok = true /\ gen_block_guard_ok = true /\
+   gen_other_in_ok = true /\ gen_other_out_ok = true /\ gen_fuse_passes_overlap = true /\ gen_compare_no_overlap = true).
 Proof. exact (blocks_tied off n bs ov u). Qed.
 Print Assumptions C06_source_block_arithmetic_is_the_model.
